@@ -1,1 +1,206 @@
-// harnesses for vu_gpu_backend_req
+// Child module of vhost::vhost_user::gpu_backend_req (the vhost-user-gpu proxy `GpuBackend`).
+// C01 (GPU channel encoding: header flags carry no version bits, only REPLY on replies),
+// C06 (reply parsing), C10 (lock across request + reply).
+use super::*;
+use crate::vhost_user::verif::ghost as g;
+use crate::vhost_user::verif::spec;
+use crate::vhost_user::verif::spec::gpu;
+use std::mem::ManuallyDrop;
+use std::os::unix::io::FromRawFd;
+
+const LENT_FD: RawFd = 70;
+static mut NODE_PTR: (*const Mutex<BackendInternal>, u64) = (std::ptr::null(), 0x51c0_77aa_0005_c10c);
+static mut LOCK_FREE_AT_SYSCALL: (bool, u64) = (false, 0x51c0_77aa_0006_c10c);
+fn c10_probe() {
+    // SAFETY: single-threaded harness
+    unsafe {
+        if !NODE_PTR.0.is_null() {
+            if let Ok(guard) = (*NODE_PTR.0).try_lock() {
+                LOCK_FREE_AT_SYSCALL.0 = true;
+                drop(guard);
+            }
+        }
+    }
+}
+unsafe fn gp_recvmsg(fd: RawFd, iovecs: &mut [libc::iovec], in_fds: &mut [RawFd]) -> vmm_sys_util::errno::Result<(usize, usize)> {
+    c10_probe();
+    g::ghost_recvmsg(fd, iovecs, in_fds)
+}
+fn gp_sendmsg<D: vmm_sys_util::sock_ctrl_msg::IntoIovec>(fd: RawFd, out_data: &[D], out_fds: &[RawFd]) -> vmm_sys_util::errno::Result<usize> {
+    c10_probe();
+    g::ghost_sendmsg(fd, out_data, out_fds)
+}
+/// error paths of this proxy build their message with format!: formatting is not the subject
+fn no_format(_args: std::fmt::Arguments<'_>) -> String {
+    String::new()
+}
+
+unsafe fn tx_gpu_header(code: u32, size: usize) {
+    assert!(g::tx32(0) == code, "C01: gpu request code");
+    assert!(g::tx32(4) == 0, "C01: gpu request flags carry no version / NEED_REPLY bits");
+    assert!(g::tx32(8) == size as u32 && g::G.tx_len == 12 + size, "C01: size = payload");
+    assert!(!g::G.tx_late_fds);
+}
+
+/// `class`: reply header class for reply-bearing operations (0 conformant: same code, flags 0x4;
+/// 1 foreign code; 2 REPLY bit missing; 3 undefined flag bit)
+fn e_gpu(op: u32, class: usize) {
+    // SAFETY: descriptor 5 is never used for real I/O
+    let b = ManuallyDrop::new(GpuBackend::from_stream(unsafe { UnixStream::from_raw_fd(5) }));
+    let w: [u32; 10] = kani::any();
+    let rval: u64 = kani::any();
+    let nfds: usize = kani::any();
+    kani::assume(nfds <= 1);
+    let rsize: usize = if op == gpu::GET_PROTOCOL_FEATURES { 8 } else { 0 };
+    // SAFETY: ghost state
+    unsafe {
+        NODE_PTR.0 = Arc::as_ptr(&b.node);
+        g::G.lent_lo = LENT_FD;
+        g::G.lent_hi = LENT_FD + 1;
+        let code = if class == 1 { op + 1 } else { op };
+        let flags = match class { 2 => 0x0, 3 => 0x5, _ => 0x4 };
+        g::put_hdr(0, code, flags, rsize as u32);
+        g::put64(12, rval);
+        g::G.rx_len = 12 + rsize;
+        g::G.rx_closed = false;
+        g::G.rx_nfds = nfds;
+    }
+    let ev = ManuallyDrop::new(unsafe { std::fs::File::from_raw_fd(LENT_FD) });
+    let with_fd: bool = kani::any();
+    let mut wit = false;
+    // SAFETY: ghost state
+    unsafe {
+        match op {
+            gpu::GET_PROTOCOL_FEATURES => {
+                let r = b.get_protocol_features();
+                wit = if class == 0 { r.is_ok() } else { r.is_err() };
+                tx_gpu_header(op, 0);
+                assert!(!g::G.blocked);
+                if let Ok(v) = &r {
+                    assert!(class == 0 && nfds == 0, "C06: accepted bytes that are not the reply to this request");
+                    assert!(v.value == rval, "C03: value returned = value replied");
+                }
+                if class == 0 && nfds == 0 {
+                    assert!(r.is_ok(), "C03: conformant reply must be accepted");
+                }
+                std::mem::forget(r);
+            }
+            gpu::DMABUF_UPDATE => {
+                let m = VhostUserGpuUpdate { scanout_id: w[0], x: w[1], y: w[2], width: w[3], height: w[4] };
+                let r = b.update_dmabuf_scanout(&m);
+                wit = if class == 0 { r.is_ok() } else { r.is_err() };
+                tx_gpu_header(op, 20);
+                assert!(g::tx32(12) == w[0] && g::tx32(16) == w[1] && g::tx32(20) == w[2] && g::tx32(24) == w[3] && g::tx32(28) == w[4], "C01: update body");
+                assert!(!g::G.blocked);
+                if r.is_ok() {
+                    assert!(class == 0 && nfds == 0, "C06");
+                }
+                if class == 0 && nfds == 0 {
+                    assert!(r.is_ok());
+                }
+                std::mem::forget(r);
+            }
+            gpu::SET_PROTOCOL_FEATURES => {
+                let r = b.set_protocol_features(&VhostUserU64::new(rval));
+                wit = r.is_ok();
+                tx_gpu_header(op, 8);
+                assert!(g::tx64(12) == rval && g::G.rx_calls == 0 && r.is_ok(), "C01: fire-and-forget u64");
+                std::mem::forget(r);
+            }
+            gpu::SCANOUT => {
+                let m = VhostUserGpuScanout { scanout_id: w[0], width: w[1], height: w[2] };
+                let r = b.set_scanout(&m);
+                wit = r.is_ok();
+                tx_gpu_header(op, 12);
+                assert!(g::tx32(12) == w[0] && g::tx32(16) == w[1] && g::tx32(20) == w[2] && g::G.rx_calls == 0 && r.is_ok());
+                std::mem::forget(r);
+            }
+            gpu::CURSOR_POS | gpu::CURSOR_POS_HIDE => {
+                let m = VhostUserGpuCursorPos { scanout_id: w[0], x: w[1], y: w[2] };
+                let r = if op == gpu::CURSOR_POS { b.cursor_pos(&m) } else { b.cursor_pos_hide(&m) };
+                wit = r.is_ok();
+                tx_gpu_header(op, 12);
+                assert!(g::tx32(12) == w[0] && g::tx32(16) == w[1] && g::tx32(20) == w[2] && g::G.rx_calls == 0 && r.is_ok());
+                std::mem::forget(r);
+            }
+            gpu::DMABUF_SCANOUT | gpu::DMABUF_SCANOUT2 => {
+                let m = VhostUserGpuDMABUFScanout {
+                    scanout_id: w[0], x: w[1], y: w[2], width: w[3], height: w[4], fd_width: w[5], fd_height: w[6],
+                    fd_stride: w[7], fd_flags: w[8], fd_drm_fourcc: w[9],
+                };
+                let fd = if with_fd { Some(&*ev) } else { None };
+                let r = if op == gpu::DMABUF_SCANOUT {
+                    b.set_dmabuf_scanout(&m, fd)
+                } else {
+                    b.set_dmabuf_scanout2(&VhostUserGpuDMABUFScanout2 { dmabuf_scanout: m, modifier: rval }, fd)
+                };
+                wit = r.is_ok() && with_fd;
+                tx_gpu_header(op, if op == gpu::DMABUF_SCANOUT { 40 } else { 48 });
+                assert!(g::tx32(12) == w[0] && g::tx32(16) == w[1] && g::tx32(20) == w[2] && g::tx32(24) == w[3] && g::tx32(28) == w[4]);
+                assert!(g::tx32(32) == w[5] && g::tx32(36) == w[6] && g::tx32(40) == w[7] && g::tx32(44) == w[8] && g::tx32(48) == w[9], "C01: dmabuf scanout body");
+                if op == gpu::DMABUF_SCANOUT2 {
+                    assert!(g::tx64(52) == rval, "C01: modifier follows the scanout (packed)");
+                }
+                assert!(g::G.tx_first_nfds == with_fd as usize && (!with_fd || g::G.tx_first_fd0 == LENT_FD), "C01: descriptor iff given");
+                assert!(g::G.rx_calls == 0 && r.is_ok());
+                std::mem::forget(r);
+            }
+            gpu::UPDATE => {
+                let m = VhostUserGpuUpdate { scanout_id: w[0], x: w[1], y: w[2], width: w[3], height: w[4] };
+                let data: [u8; 8] = kani::any();
+                let r = b.update_scanout(&m, &data[..]);
+                wit = r.is_ok();
+                tx_gpu_header(op, 28);
+                assert!(g::tx32(12) == w[0] && g::tx32(28) == w[4] && g::tx64(32) == spec::rd64(&data, 0), "C01: update body then pixel payload");
+                assert!(g::G.rx_calls == 0 && r.is_ok());
+                std::mem::forget(r);
+            }
+            _ => {}
+        }
+        assert!(!g::G.lent_closed, "C09: lent descriptor closed");
+        assert!(!LOCK_FREE_AT_SYSCALL.0, "C10: gpu proxy lock free during a socket call of the transaction");
+        assert!((*NODE_PTR.0).try_lock().is_ok(), "C10: gpu proxy lock released on return");
+    }
+    kani::cover!(wit, "witness");
+}
+
+macro_rules! e_gp {
+    ($name:ident, $op:expr, $class:expr) => {
+        #[kani::proof]
+        #[kani::unwind(5)]
+        #[kani::stub(vmm_sys_util::sock_ctrl_msg::raw_recvmsg, gp_recvmsg)]
+        #[kani::stub(vmm_sys_util::sock_ctrl_msg::raw_sendmsg, gp_sendmsg)]
+        #[kani::stub(libc::close, g::ghost_close)]
+        #[kani::stub(<std::os::fd::OwnedFd as std::ops::Drop>::drop, g::ghost_ownedfd_drop)]
+        #[kani::stub(std::alloc::handle_alloc_error, g::ghost_alloc_error)]
+        #[kani::stub(std::fmt::format, no_format)]
+        fn $name() {
+            e_gpu($op, $class)
+        }
+    };
+}
+
+// @harness props=C01,C06,C10,C03 tier=quick reach=off timeout=500 bound="GpuBackend::get_protocol_features: conformant reply, value and 0..=1 descriptors symbolic" stubs="raw_recvmsg/raw_sendmsg (+lock probe), close, OwnedFd::drop, handle_alloc_error, fmt::format"
+e_gp!(e_gp_get_protocol_features, 1, 0);
+// @harness props=C06 tier=quick reach=off timeout=500 bound="GpuBackend::get_protocol_features answered with another request's code" stubs="raw_recvmsg/raw_sendmsg (+lock probe), close, OwnedFd::drop, handle_alloc_error, fmt::format"
+e_gp!(e_gp_get_protocol_features_foreign, 1, 1);
+// @harness props=C06 tier=thorough reach=off timeout=500 bound="GpuBackend::get_protocol_features answered without the REPLY flag" stubs="raw_recvmsg/raw_sendmsg (+lock probe), close, OwnedFd::drop, handle_alloc_error, fmt::format"
+e_gp!(e_gp_get_protocol_features_noreply, 1, 2);
+// @harness props=C06 tier=thorough reach=off timeout=500 bound="GpuBackend::get_protocol_features answered with an undefined flag bit" stubs="raw_recvmsg/raw_sendmsg (+lock probe), close, OwnedFd::drop, handle_alloc_error, fmt::format"
+e_gp!(e_gp_get_protocol_features_badflag, 1, 3);
+// @harness props=C01,C06,C10 tier=quick reach=off timeout=500 bound="GpuBackend::update_dmabuf_scanout (empty ack reply): all five u32 fields" stubs="raw_recvmsg/raw_sendmsg (+lock probe), close, OwnedFd::drop, handle_alloc_error, fmt::format"
+e_gp!(e_gp_dmabuf_update, 10, 0);
+// @harness props=C01,C10 tier=thorough reach=off timeout=500 bound="GpuBackend::set_protocol_features: all u64" stubs="raw_recvmsg/raw_sendmsg (+lock probe), close, OwnedFd::drop, handle_alloc_error, fmt::format"
+e_gp!(e_gp_set_protocol_features, 2, 0);
+// @harness props=C01,C10 tier=thorough reach=off timeout=500 bound="GpuBackend::set_scanout: all fields" stubs="raw_recvmsg/raw_sendmsg (+lock probe), close, OwnedFd::drop, handle_alloc_error, fmt::format"
+e_gp!(e_gp_scanout, 7, 0);
+// @harness props=C01,C10 tier=thorough reach=off timeout=500 bound="GpuBackend::cursor_pos: all fields" stubs="raw_recvmsg/raw_sendmsg (+lock probe), close, OwnedFd::drop, handle_alloc_error, fmt::format"
+e_gp!(e_gp_cursor_pos, 4, 0);
+// @harness props=C01,C10 tier=thorough reach=off timeout=500 bound="GpuBackend::cursor_pos_hide: all fields" stubs="raw_recvmsg/raw_sendmsg (+lock probe), close, OwnedFd::drop, handle_alloc_error, fmt::format"
+e_gp!(e_gp_cursor_pos_hide, 5, 0);
+// @harness props=C01,C09,C10 tier=quick reach=off timeout=500 bound="GpuBackend::set_dmabuf_scanout: all ten u32 fields, with/without descriptor" stubs="raw_recvmsg/raw_sendmsg (+lock probe), close, OwnedFd::drop, handle_alloc_error, fmt::format"
+e_gp!(e_gp_dmabuf_scanout, 9, 0);
+// @harness props=C01,C09,C10 tier=thorough reach=off timeout=500 bound="GpuBackend::set_dmabuf_scanout2: all fields + modifier, with/without descriptor" stubs="raw_recvmsg/raw_sendmsg (+lock probe), close, OwnedFd::drop, handle_alloc_error, fmt::format"
+e_gp!(e_gp_dmabuf_scanout2, 12, 0);
+// @harness props=C01,C10 tier=thorough reach=off timeout=500 bound="GpuBackend::update_scanout: all fields, 8 payload bytes" stubs="raw_recvmsg/raw_sendmsg (+lock probe), close, OwnedFd::drop, handle_alloc_error, fmt::format"
+e_gp!(e_gp_update, 8, 0);
